@@ -326,10 +326,10 @@ func runSweepRace(p raceParams) (res raceResult) {
 			time.Sleep(d)
 		}
 		cid := fmt.Sprintf("c%d", round)
-		main.MustDo("SET", "kc", cid, "EX", "0.010", "STRING", "x")
+		main.MustDo("SET", canaryKey, cid, "EX", "0.010", "STRING", "x")
 		cstart := time.Now()
 		for {
-			v, err := main.Do("EXISTS", "kc", cid)
+			v, err := main.Do("EXISTS", canaryKey, cid)
 			if err != nil {
 				res.Incon = append(res.Incon, "canary: "+err.Error())
 				return
@@ -550,10 +550,10 @@ func hugeEXProbe() (bad string, err error) {
 		return "SETCHAN hc EX 1e22 ... => " + v.String(), nil
 	}
 	// a sweep certainly ran: canary
-	must("SET", "kc", "c", "EX", "0.010", "STRING", "x")
+	must("SET", canaryKey, "c", "EX", "0.010", "STRING", "x")
 	start := time.Now()
 	for {
-		v := must("EXISTS", "kc", "c")
+		v := must("EXISTS", canaryKey, "c")
 		if !(v.Kind == ':' && v.Int == 1) {
 			break
 		}
